@@ -385,7 +385,7 @@ func Run(pid, tier string, seed uint64, driver, outPath, corpusDir string, only 
 	for i := range cases {
 		cases[i].ID = i
 	}
-	res := &Result{Property: pid, Seed: seed, Tier: tier, Streams: map[string]*StreamStat{}}
+	res := &Result{Property: pid, Seed: seed, Tier: tier, Streams: map[string]*StreamStat{}, Issues: []Issue{}}
 	impl, restarts := runImpl(cases, 20*time.Second)
 	res.Restarts = restarts
 	model, merr := runModel(cases, driver)
